@@ -452,23 +452,45 @@ def check(P: Project, R: Report) -> None:
         classes.setdefault(sig, (st, node))
     R.extra["exit_classes_after_post"] = len(classes)
     # R7: every message that can be serialised is POSTed — whether a request is sent does not depend on earlier ones
-    R.rule("R7", "every message the routine can serialise reaches the POST: the only exit before it is the one taken for an object that is neither a model nor a dict; an exit (or a synthesised answer) before the POST under any other condition means an earlier request's outcome decides whether a later one is sent")
+    R.rule("R7", "whether a message is POSTed is decided by the message alone: an exit (or a synthesised answer) before the POST taken under a condition on the transport's own state means the outcome of earlier requests decides whether a later one is sent")
     pre = {}
+
+    def _deciding_tests(ret):
+        """tests of the `if`s around an early return, outermost first (not inside an except arm: those are failures of this message)"""
+        chain = []
+
+        def rec(n, acc, in_handler):
+            if n is ret:
+                chain.extend(acc if not in_handler else [None])
+                return True
+            for fld, val in ast.iter_fields(n):
+                items = val if isinstance(val, list) else [val]
+                for c in items:
+                    if not isinstance(c, ast.AST):
+                        continue
+                    acc2 = acc
+                    if isinstance(n, ast.If) and fld in ("body", "orelse"):
+                        acc2 = acc + [ast.unparse(n.test) if fld == "body" else "not (" + ast.unparse(n.test) + ")"]
+                    if rec(c, acc2, in_handler or isinstance(n, ast.ExceptHandler)):
+                        return True
+            return False
+
+        rec(send.node, [], False)
+        return chain
+
     for kind, st, node in exits:
-        if "post" in st.events:
+        if "post" in st.events or kind != "return":
             continue
-        mp_ = [p_ for p_ in send.positional_params() if p_ != "self"][0]
-        unserialisable = any(l in (f"not isinstance({mp_}, dict)",) or l.startswith(f"not isinstance({mp_}, (dict") for l in st.lits) and any(
-            l in (f"not hasattr({mp_}, 'model_dump')", f"getattr({mp_}, 'model_dump', None) is None", f"not getattr({mp_}, 'model_dump', None)") or (l.startswith("not ") and "model_dump" in l) for l in st.lits)
-        caught_ = any(k in (_handler_vars or ()) for k, _v in st.env) or any(" is not None" in l and l.split(" ")[0].split("·")[0] in {h.name for h in walk_local(send.node) if isinstance(h, ast.ExceptHandler) and h.name} for l in st.lits)
-        key = (unserialisable, caught_, tuple(sorted(l for l in st.lits if "self." in l))[:3])
-        pre.setdefault(key, (st, node))
-    for (unser, caught_, _k), (st, node) in sorted(pre.items(), key=lambda x: str(x[0])):
-        if caught_:
-            continue  # a failure while preparing the request (serialisation raised): nothing was sent for this message only
-        R.ob("R7", "an exit before the POST is the unserialisable-object exit", unser, f"{rel}:{getattr(node, 'lineno', send.node.lineno)}",
-             f"the routine ends before the POST under {sorted(l[:60] for l in st.lits)[:6]} (events {[e[:40] for e in st.events][:3]}): a serialisable message is not sent — state left by earlier requests decides it",
-             sample="R7 pre-POST exit only for an object that is neither model nor dict")
+        tests = _deciding_tests(node)
+        if None in tests:
+            continue
+        stateful = tuple(t for t in tests if any(isinstance(n_, ast.Name) and n_.id == "self" for n_ in ast.walk(ast.parse(t, mode="eval"))))
+        pre.setdefault((stateful, bool([e for e in st.events if e.startswith("synth:")]), getattr(node, "lineno", 0)), (st, node))
+    for (stateful, synth_, _ln), (st, node) in sorted(pre.items(), key=lambda x: str(x[0])):
+        R.ob("R7", "an exit before the POST is decided by the message alone", not stateful, f"{rel}:{getattr(node, 'lineno', send.node.lineno)}",
+             f"the routine returns before the POST under {[t[:70] for t in stateful][:3]}" + (" after answering with a synthesised message" if synth_ else "") + ": whether a serialisable message is sent depends on state the transport keeps across requests — a failure of earlier requests prevents a later one from being processed",
+             sample="R7 pre-POST return decided by the message alone (unserialisable object)")
+    R.need(pre, "anchor: the send routine has no exit before the POST (the unserialisable-object exit vanished)")
     n_ok = 0
 
     def exit_construct(node) -> str:
